@@ -173,3 +173,55 @@ func VerifRegistryTwin() {
 	Unregist(a)
 	symapi.Assert(Get("/a") == nil, "twin-unregistering-retired-stream-removes-successor")
 }
+
+// VerifLookupVsUnregist: a lookup racing with Unregist never returns a stream that is
+// already closed (every interleaving).
+func VerifLookupVsUnregist() {
+	s := verifStream("/a")
+	Regist(s)
+	how := symapi.Choose("how", 2)
+	symapi.Go(func() {
+		if how == 0 {
+			Unregist(s)
+		} else {
+			(&runZeroConsumersClose{s: s, d: 5 * time.Minute, closedStats: StreamNoConsumer}).run()
+		}
+	})
+	g := Get("/A") // another spelling of the same path
+	if g != nil {
+		symapi.Assert(g.status == StreamOK, "lookup-never-returns-a-closed-stream")
+	}
+	sc, _ := Count()
+	_ = sc
+	symapi.Quiesce()
+	symapi.Assert(Get("/a") == nil && s.status != StreamOK, "stream-gone-after-unregist")
+	symapi.Reach("end")
+}
+
+const verifSdpH264 = "v=0\r\no=- 0 0 IN IP4 127.0.0.1\r\ns=x\r\nc=IN IP4 0.0.0.0\r\nt=0 0\r\n" +
+	"m=video 0 RTP/AVP 96\r\na=rtpmap:96 H264/90000\r\na=control:trackID=0\r\n" +
+	"m=audio 0 RTP/AVP 97\r\na=rtpmap:97 MPEG4-GENERIC/44100/2\r\na=fmtp:97 profile-level-id=1;mode=AAC-hbr;sizelength=13;indexlength=3;indexdeltalength=3;config=1210\r\na=control:trackID=1\r\n"
+
+// VerifIdleCloseHls: a stream with HLS output and no RTP/FLV consumer is closed for idleness
+// only when the last HLS access is at least the idle period ago.
+func VerifIdleCloseHls() {
+	s := NewStream("/live/h", verifSdpH264)
+	symapi.Assert(s.Hlsable() != nil, "h264-stream-has-hls")
+	Regist(s)
+	s.Hlsable().M3u8("") // an HLS player fetches the playlist (too early to get one, but it counts as access)
+	stale := symapi.Bool("accessIsOld")
+	if stale {
+		symapi.AdvanceClock(6 * 60)
+	} else {
+		symapi.AdvanceClock(symapi.IntRange("secondsAgo", 0, 3) * 60)
+	}
+	task := &runZeroConsumersClose{s: s, d: 5 * time.Minute, closedStats: StreamNoConsumer}
+	task.run()
+	if stale {
+		symapi.Assert(s.status != StreamOK && Get("/live/h") == nil, "idle-stream-with-old-hls-access-closed")
+		symapi.Reach("stale")
+	} else {
+		symapi.Assert(s.status == StreamOK && Get("/live/h") == s, "stream-with-recent-hls-access-not-closed")
+		symapi.Reach("recent")
+	}
+}
